@@ -14,6 +14,7 @@ def run(rep, repo, tier):
     run_shells(rep, repo)
     run_path(rep, repo)
     run_creader(rep, repo)
+    run_stringcpp(rep, repo)
 
 
 def run_memmem(rep, repo):
@@ -377,17 +378,27 @@ def summary_iterate(interp, st, i, args):
 
 
 def nice(mod, obs):
-    """report static C++ functions under their source names"""
+    """report C++ functions under their source names (overloads with their parameter types); a function whose
+    every return became unreachable because an out-of-bounds access was assumed away is reported once (bounds)"""
+    counts = {}
+    for f in mod.defined():
+        counts[f.qualname] = counts.get(f.qualname, 0) + 1
+
     def nm(n):
         f = mod.fn(n)
-        return (f.qualname if f is not None and f.srcname else n)
+        if f is None or not f.srcname:
+            return n
+        return f.qualname + (sig19(f) if counts.get(f.qualname, 0) > 1 else '')
+    bad_bounds = set()
     for o in obs:
         stack = o.get('call_stack') or []
         if stack:
             o['root'] = nm(stack[0].split('@')[0])
             o['leaf'] = nm(o['function'])
         o['function'] = nm(o['function'])
-    return obs
+        if not o['ok'] and o['kind'].startswith('bounds'):
+            bad_bounds.add(o.get('root') or o['function'])
+    return [o for o in obs if not (o['kind'] == 'returns' and not o['ok'] and o['function'] in bad_bounds)]
 
 
 def run_path(rep, repo):
@@ -511,3 +522,178 @@ def run_creader(rep, repo):
         dict(name='cursor-stays-inside-buffer', then=['cursor_post_in_buf == 1', 'cursor_post_off >= c',
                                                       'cursor_post_off <= n'])]))
     rep.add_absint('R-CREADER', nice(mod, summarize(it, run)))
+
+
+BUF = StructSpec('class.igris::buffer', inv=['sz <= 1099511627776'], owns={'buf': 'sz'})
+
+
+def std_opaque(mod):
+    """libstdc++ internals are not analysed: every std:: / __gnu_cxx:: function (defined inline or only
+    declared) is an unknown call that may write to its pointer/reference arguments only"""
+    pre = ('_ZNSt', '_ZNKSt', '_ZSt', '_ZN9__gnu_cxx', '_ZNK9__gnu_cxx', '_ZNSa', '_ZNKSa', '_ZN9__gnu_cxxeq',
+           '_ZN9__gnu_cxxne')
+    return [f.name for f in mod.functions.values() if f.name.startswith(pre) or
+            (not f.decl and (f.scope.startswith('std::') or f.scope.startswith('__gnu_cxx::')))]
+
+
+def token_hook(run, nonempty=False):
+    """vector<string>::emplace_back(char *&start, long &len) and std::string(start, len) copy the bytes
+    [start, start+len): they must lie inside the buffer under analysis, len >= 0 (>= 1 when nonempty)"""
+    def check(interp, st, i, start, ln):
+        ok = False
+        detail = 'start/length of the copied range not traceable'
+        if isinstance(start, PtrVal) and not start.is_null and isinstance(ln, IntVal):
+            o = st.objs.get(start.obj)
+            l = st.as_s(ln)
+            if l is None:
+                l = st.force_s(ln)
+            if o is not None and o.size is not None:
+                ok = st.cons.entails_le(0, start.off) and st.cons.entails_le(1 if nonempty else 0, l) and \
+                    st.cons.entails_le(start.off + l, o.size)
+                detail = None if ok else ('range at offset %r of length %r is not provably inside %s of %r bytes%s'
+                                          % (start.off, l, interp.describe_obj(st, start.obj), o.size,
+                                             interp.explain(st, [start.off, l, o.size])))
+        interp.oblige('token-in-buffer', i, ok, detail, 'string(start, len) lies inside the buffer')
+
+    def hook(interp, st, i, callee, args):
+        if callee is None:
+            return None
+        if 'emplace_back' in callee and len(args) >= 3:
+            ps, pl = args[1], args[2]
+            start = ln = None
+            if isinstance(ps, PtrVal) and isinstance(pl, PtrVal) and ps.off.is_const() and pl.off.is_const():
+                start = st.mem.get((ps.obj, ps.off.c, 8))
+                ln = st.mem.get((pl.obj, pl.off.c, 8))
+            check(interp, st, i, start, ln)
+        elif callee in run.string_ctors and len(args) >= 3:
+            check(interp, st, i, args[1], args[2])
+        return None
+    return hook
+
+
+def string_ctors(mod):
+    """mangled names of std::string(const char*, size_t, const allocator&)"""
+    names = [f.name for f in mod.functions.values() if 'basic_string' in f.name and ('C1EPKcm' in f.name or 'C2EPKcm' in f.name)]
+    return set(names)
+
+
+def sig19(f):
+    m = {'i8': 'char', 'i8*': 'char*', 'i64': 'size_t', 'i32': 'int'}
+    ps = []
+    for p in f.params:
+        if p.get('sret') or p['name'] == 'this':
+            continue
+        t = p['ty']['s']
+        t = m.get(t, t)
+        if 'class.' in t or 'struct.' in t:
+            t = t.replace('%', '').replace('"', '').split('::')[-1].replace('class.', '').replace('struct.', '')
+        ps.append(t)
+    return '(' + ','.join(ps) + ')'
+
+
+def join_rule(rep, mod, fname, rule='R-JOIN'):
+    """IR call-sequence rule for igris::join(vector<string>, char): the end iterator is decremented only for a
+    non-empty vector; the loop appends element then delimiter; the last element is appended without one"""
+    f = mod.fn(fname)
+    where = '%s:%d' % (f.file, f.line)
+    name = 'igris::join'
+
+    def sn(i):
+        c = mod.fn(i.callee) if i.callee else None
+        return c.srcname.split('<')[0] if c is not None else None
+    calls = [i for i in f.all_insts() if i.op in ('call', 'invoke') and i.callee]
+    sizes = [i for i in calls if sn(i) == 'size' and i.ops and i.ops[0].k == 'arg']
+    decs = [i for i in calls if sn(i) == 'operator--']
+    pushes = [i for i in calls if sn(i) == 'push_back']
+    appends = [i for i in calls if sn(i) == 'append']
+    if not decs or not pushes or not appends or not sizes:
+        raise AnalysisBroken('igris::join no longer has the expected shape (size / operator-- / append / push_back calls)')
+    # (a) non-empty guard
+    nonempty = None
+    for s_ in sizes:
+        for u in f.users(s_):
+            if u.op == 'icmp' and any(o.k == 'ci' and o.ival == 0 for o in u.ops) and u.pred in ('eq', 'ne', 'ugt'):
+                for b in f.users(u):
+                    if b.op == 'br' and 'f' in b.d:
+                        t = b.d['f'] if u.pred == 'eq' else b.d['t']
+                        tb = f.bmap[t]
+                        if tb.preds == [b.block]:
+                            nonempty = tb
+    ok = nonempty is not None and all(f.dominates_block(nonempty, d.block) for d in decs)
+    rep.inst(rule, name, 'end-iterator-decremented-only-for-non-empty-vector', ok, decs[0].where(),
+             None if ok else 'vec.end()-- is reachable with an empty vector (iterator before begin())')
+    # (b) element, delimiter, ..., last element
+    loops = [L for L in f.loops if any(p.block in L['blocks'] for p in pushes)]
+    ok = len(loops) == 1 and len(pushes) == 1
+    if ok:
+        L = loops[0]
+        p = pushes[0]
+        inl = [a for a in appends if a.block in L['blocks']]
+        ok = len(inl) == 1 and inl[0].block is p.block and inl[0].idx < p.idx and \
+            len(p.ops) == 2 and p.ops[1].k == 'arg' and f.params[p.ops[1].argno]['ty'].get('bits') == 8 and \
+            p.ops[0].key() == inl[0].ops[0].key()
+    rep.inst(rule, name, 'loop-appends-element-then-delimiter', ok, pushes[0].where(),
+             None if ok else 'the joining loop does not append one element followed by the delimiter argument')
+    ok2 = False
+    if ok:
+        outl = [a for a in appends if a.block not in L['blocks']]
+        exits = set(t for (_, t) in L['exits'])
+        ok2 = len(outl) == 1 and len(exits) == 1 and f.dominates_block(next(iter(exits)), outl[0].block) and \
+            outl[0].ops[0].key() == pushes[0].ops[0].key()
+    rep.inst(rule, name, 'last-element-appended-without-delimiter', ok2, where,
+             None if ok2 else 'after the loop exactly one more element must be appended and no delimiter')
+    # (c) the loop stops at the decremented end iterator
+    ok3 = False
+    if ok:
+        hdr = L['header']
+        cmpc = [i for i in hdr.insts if i.op in ('call', 'invoke') and i.callee and sn(i) in ('operator==', 'operator!=')]
+        roots = set()
+        for c in cmpc:
+            for o in c.ops:
+                r, _ = trace_const(f, o)
+                roots.add(r.key())
+        dec_roots = set(trace_const(f, d.ops[0])[0].key() for d in decs)
+        ok3 = bool(cmpc) and bool(roots & dec_roots)
+    rep.inst(rule, name, 'loop-stops-at-last-element', ok3, where,
+             None if ok3 else 'the loop bound is not the decremented end iterator')
+
+
+def run_stringcpp(rep, repo):
+    mod = compile_ir(repo + '/igris/util/string.cpp', repo)
+    rep.units.append('igris/util/string.cpp')
+    op = std_opaque(mod)
+    ext = dict(LIBC_EXT)
+    ext.update({n: ext_std for n in op})
+    it = Interp(mod, externals=ext, opaque=op)
+    run = Run19(it, [BUF])
+    it.call_hook = token_hook(run)
+
+    def M(name, nparams, ptr_second=None):
+        c = [f for f in mod.defined() if f.scope.startswith('igris::') and f.srcname == name and len(f.params) == nparams]
+        if ptr_second is not None:
+            c = [f for f in c if (f.params[2]['ty']['k'] == 'ptr') == ptr_second]
+        if len(c) != 1:
+            raise AnalysisBroken('igris::%s/%d: %d candidates' % (name, nparams, len(c)))
+        return c[0].name
+    run.string_ctors = string_ctors(mod)
+    run.run(M('split', 3, False), FnSpec())
+    run.run(M('split', 3, True), FnSpec(setup=cstr_args(2)))
+    run.run(M('split_cmdargs', 2), FnSpec())
+    run.run(M('dstring', 3), FnSpec(setup=sized_params((1, 2)), pre=['arg2 <= 1099511627776']))
+    rep.add_absint('R-SPLIT', nice(mod, summarize(it, run)))
+    join_rule(rep, mod, M('join', 3))
+    # trim (static inline in string.h)
+    modw = witness('w_c19_string.cpp', repo)
+    rep.units.append('witness/w_c19_string.cpp -> igris/util/string.h (trim)')
+    op = std_opaque(modw)
+    ext = dict(LIBC_EXT)
+    ext.update({n: ext_std for n in op})
+    it = Interp(modw, externals=ext, opaque=op)
+    run = Run19(it, [BUF])
+    run.string_ctors = string_ctors(modw)
+    it.call_hook = token_hook(run, nonempty=True)
+    c = [f for f in modw.defined() if f.scope.startswith('igris::') and f.srcname == 'trim']
+    if len(c) != 1:
+        raise AnalysisBroken('igris::trim not instantiated')
+    run.run(c[0].name, FnSpec())
+    rep.add_absint('R-TRIM', nice(modw, summarize(it, run)))
